@@ -90,6 +90,9 @@ type schedWorld struct {
 	reqs   []*schedReq
 	newSrv map[string]int // newServerFn calls per model path
 	desc   []string
+	// requests whose client is inside GetRunner right now, by task key (submissions that are
+	// not made atomically, see client)
+	submitting map[string]*schedReq
 }
 
 func (w *schedWorld) violate(prop, class, sig, f string, a ...any) {
@@ -394,10 +397,26 @@ func (w *schedWorld) client(r *schedReq, think time.Duration) {
 		return
 	}
 	var qlen, qcap int
-	verifsim.Atomic(func() {
-		qlen, qcap = len(s.pendingReqCh), cap(s.pendingReqCh)
+	if verifsim.Draw("submit-loose", 3) == 0 {
+		// GetRunner runs with its own pre-emption points: other submitters and the pending
+		// loop interleave with it. Whether the queue was full at the decisive instant is not
+		// known to the harness then, so the "busy" answer is not predicted; what is checked
+		// (OnStep) is the other half of the clause: the caller is never blocked inside GetRunner.
+		verifsim.Probe("submit_not_atomic")
+		if w.submitting == nil {
+			w.submitting = map[string]*schedReq{}
+		}
+		key := verifsim.TaskKey()
+		w.submitting[key] = r
 		r.okCh, r.errCh = s.GetRunner(r.ctx, r.m, r.opts, r.ka)
-	})
+		delete(w.submitting, key)
+		qlen, qcap = 0, 1
+	} else {
+		verifsim.Atomic(func() {
+			qlen, qcap = len(s.pendingReqCh), cap(s.pendingReqCh)
+			r.okCh, r.errCh = s.GetRunner(r.ctx, r.m, r.opts, r.ka)
+		})
+	}
 	if r.opts.NumCtx < 4 {
 		r.opts.NumCtx = 4
 	}
@@ -601,6 +620,14 @@ func runSched(t *testing.T, tape *verifsim.Tape, prop, tier string, keepLog bool
 		sim.OnStep = func() {
 			if prop == "C01" {
 				w.checkHolders()
+			}
+			if prop == "C02" && len(w.submitting) > 0 {
+				// "when the queue is full the caller is told the server is busy instead of being blocked"
+				for _, t := range sim.Blocked() {
+					if r := w.submitting[t.Key()]; r != nil {
+						w.violate("C02", "busy", "busy:caller-blocked-in-GetRunner", "the caller of GetRunner for request %d is blocked inside the call (pending queue %d/%d) instead of being given its reply channels at once", r.id, len(w.s.pendingReqCh), cap(w.s.pendingReqCh))
+					}
+				}
 			}
 			if len(states) < 4096 {
 				states[stateHash(w)] = true
